@@ -34,7 +34,7 @@ def run(ctx):
     ac.model_check(ctx, ["MC_Algo_quick.cfg"] if ctx.quick else ["MC_Algo.cfg", "MC_Algo_p3.cfg"], workers=ac.par(ctx) * 2)
     h = ac.harness(ctx)
     # (2) E: exhaustive cases replayed in every representation / slab / withPos variant
-    cfgs = ["Gen_Algo_quick.cfg"] if ctx.quick else (["Gen_Algo_t5a%d.cfg" % a for a in range(1, 7)] +
+    cfgs = ["Gen_Algo_quick.cfg", "Gen_Algo_quick4.cfg"] if ctx.quick else (["Gen_Algo_t5a%d.cfg" % a for a in range(1, 7)] +
                                                      ["Gen_Algo_p3a%d.cfg" % a for a in range(1, 5)])
     stats, counts, total_cases, total_calls, judged = {}, {}, 0, 0, 0
     tpath = None
@@ -73,7 +73,7 @@ def run(ctx):
                        "schemes (admissible patterns only), each run through 7 matchers x 2 directions x 2 representations x "
                        "withPos on/off x {no slab, real slab, 5 scaled-down slabs}; non-trivial = inputs on which some matcher "
                        "matches and some does not.  J: random texts <= 300 runes / patterns <= 12 and run-length encoded lines "
-                       "> 65535 runes judged by ValidResult." % (ctx.pick("4 (7 over {a,b})", "5 (8 over {a,b})"),
+                       "> 65535 runes judged by ValidResult." % (ctx.pick("3-4 (6 over {a,b})", "5 (8 over {a,b})"),
                                                                  ctx.pick("2 (3)", "2 (3 with texts <= 4)")))
     ctx.cov["enumerated_inputs"] = stats.get("cases", 0)
     ctx.cov["matches_by_kind"] = {k: stats.get("match_" + k, 0) for k in ac.KINDS}
